@@ -158,6 +158,10 @@ def trip(ctx, case):
                         os.symlink(os.path.join(workdir, 'releases', 'v1'), os.path.join(workdir, 'current'))
                     return (os.path.join(workdir, 'current', '..', 'shared', 'in.bin'), os.path.join(workdir, 'current', '..', 'shared', 'out.bin'),
                             os.path.join(workdir, 'releases', 'shared', 'in.bin'))
+                if case.get('brace_path'):
+                    # file names with format-string metacharacters
+                    a_, b_ = {1: ('in{0}.bin', 'out}.bin'), 2: ('{tenant}-in.bin', 'out{.bin'), 3: ('in{{x}}.bin', '{6F96}.bin')}[case['brace_path']]
+                    return (os.path.join(workdir, a_), os.path.join(workdir, b_), os.path.join(workdir, a_))
                 if relative:
                     return ('in.bin', 'out.bin', os.path.join(workdir, 'in.bin'))
                 return (os.path.join(workdir, 'in.bin'), os.path.join(workdir, 'out.bin'), os.path.join(workdir, 'in.bin'))
@@ -281,6 +285,13 @@ def trip(ctx, case):
                 holder.to_file(tgt)
                 if open(tgt, 'rb').read() != exp:
                     ctx.violation('holder.to_file wrote other bytes', w)
+                for n_export in (2, 3):
+                    # the same holder is exported again (once into a diff folder, once more into a report folder)
+                    tgt2 = os.path.join(dir_b, 'holder-export-%d.bin' % n_export)
+                    holder.to_file(tgt2)
+                    if open(tgt2, 'rb').read() != exp:
+                        ctx.violation('export number %d of the same output holder wrote other bytes than the first' % n_export, w)
+                        break
             if above:
                 reads = [(p, m) for p, m in opened_b if (p.startswith(dir_b) or not os.path.isabs(p)) and p.endswith('out.bin') and isinstance(m, str) and 'r' in m and 'w' not in m]
                 if reads:
@@ -819,6 +830,15 @@ def run(ctx):
                 case = dict(shapes(rng), seed=base + idx, cassette=cassette, **extra)
                 ctx.case(case)
                 ctx.count('sidecar_and_derived_handler_trips')
+                trip(ctx, case)
+    # file names with braces, below and above the limit
+    for bp in (1, 2, 3):
+        for extra in ({}, {'size': 4097, 'limit_mb': 4096 / float(MIB), 'above': True}):
+            idx += 1
+            if ctx.mine(idx):
+                case = dict(shapes(rng), seed=base + idx, brace_path=bp, cassette=('memory', 'file', 's3')[(bp + len(extra)) % 3], **extra)
+                ctx.case(case)
+                ctx.count('brace_path_trips')
                 trip(ctx, case)
     # the limit of existing handlers is changed after they were constructed (lowered below / raised above the file size)
     for built_with, now, size in ((1, 1024 / float(MIB), 2000), (1024 / float(MIB), 1, 2000), (None, 1024 / float(MIB), 1025), (1024 / float(MIB), 2048 / float(MIB), 2048),
